@@ -571,15 +571,13 @@ struct GraphTotals {
 	max_depth: usize,
 }
 
-fn run_graph(ctx: &'static Ctx, alphas: &[Alphabet], plan: &[(usize, usize, u64)], max_depth: u8) -> GraphTotals {
-	// plan: (alphabet index, max simultaneously present classes, chunk size)
+fn run_graph(ctx: &'static Ctx, alphas: &[Alphabet], plan: &[(usize, Vec<u32>, u64)], max_depth: u8) -> GraphTotals {
+	// plan: (alphabet index, sets of simultaneously present classes, chunk size)
 	let mut chunks = Vec::new();
-	for &(ai, max_present, chunk) in plan {
+	for (ai, masks, chunk) in plan {
+		let (ai, chunk) = (*ai, *chunk);
 		let a = &alphas[ai];
-		for mask in vcore::enumerate::subsets_by_size(a.keys.len()) {
-			if mask.count_ones() as usize > max_present {
-				continue;
-			}
+		for &mask in masks {
 			let total = (a.variants() as u64).pow(mask.count_ones());
 			let mut start = 0;
 			while start < total {
@@ -740,9 +738,17 @@ fn main() {
 	let nkeys = alphas[0].keys.len();
 	let max_depth: u8 = 3;
 	// (alphabet, max simultaneously present classes, chunk size)
-	let present2 = nkeys;
-	let present3 = ctx.tier.pick(3, 4);
-	let plan = vec![(0usize, present2, 256u64), (1usize, present3, 128u64)];
+	// N=2: every subset of the class keys. N=3 (9 variants per present class): every subset of at most 3
+	// keys, the complete chain A ⊂ A$B ⊂ A$B$C ⊂ A$B$C$D, and in the thorough tier every 4-subset of the
+	// seven quick-tier keys.
+	let nquick = KEYS_QUICK.len().min(nkeys);
+	let chain: u32 = alphas[1].keys.iter().enumerate().filter(|(_, (k, _))| ["A", "A$B", "A$B$C", "A$B$C$D"].contains(&k.as_str())).map(|(i, _)| 1u32 << i).sum();
+	let masks2: Vec<u32> = vcore::enumerate::subsets_by_size(nkeys);
+	let masks3: Vec<u32> = vcore::enumerate::subsets_by_size(alphas[1].keys.len()).into_iter().filter(|m| {
+		m.count_ones() <= 3 || *m == chain || (ctx.tier == vcore::Tier::Thorough && m.count_ones() == 4 && (*m >> nquick) == 0)
+	}).collect();
+	let rule3 = ctx.tier.pick("every subset of <= 3 class keys, plus the complete chain {A, A$B, A$B$C, A$B$C$D}", "every subset of <= 3 class keys, plus every 4-subset of the first seven keys");
+	let plan = vec![(0usize, masks2.clone(), 256u64), (1usize, masks3.clone(), 128u64)];
 	let g = run_graph(ctx, &alphas, &plan, max_depth);
 	if std::env::var_os("C11_TIMING").is_some() { eprintln!("graph done at {:.1}s", ctx.elapsed_s()); }
 
@@ -810,8 +816,8 @@ fn main() {
 		"bounds": {
 			"class_keys": alphas[0].keys.iter().map(|(k, _)| k.clone()).collect::<Vec<_>>(),
 			"target_kinds_per_class_and_namespace": KIND_NAMES,
-			"N=2": {"namespaces": alphas[0].ns, "max_present_classes": present2, "acted_on_namespace_indices": [1]},
-			"N=3": {"namespaces": alphas[1].ns, "max_present_classes": present3, "acted_on_namespace_indices": [1, 2]},
+			"N=2": {"namespaces": alphas[0].ns, "present_class_sets": "every subset of the class keys", "present_class_set_count": masks2.len(), "acted_on_namespace_indices": [1]},
+			"N=3": {"namespaces": alphas[1].ns, "present_class_sets": rule3, "present_class_set_count": masks3.len(), "acted_on_namespace_indices": [1, 2]},
 			"bfs_depth": max_depth,
 			"actions": ["extend:<ns>", "contract:<ns>"],
 			"helper_alphabet": HELPER_ALPHABET.iter().map(|c| c.to_string()).collect::<Vec<_>>(),
